@@ -141,6 +141,8 @@ def handle : Handler := fun op a => do
       ("providers", .arr ((List.range nStores).map fun st => .arr ((s.providers st).map encP))),
       ("tests", .arr ((List.range nTests).map fun t => match s.testStore t with | none => .null | some p => encP p)),
       ("handles", .arr ((List.range s.nH).map fun h => encFS (s.heap (s.hSet h)))),
+      ("set_on_case", .arr ((none :: (List.range nTests).map some).map fun t => .arr ((List.range nOps).map fun o =>
+          match (setOnCase mt s t o : Option Provider) with | none => .null | some p => jnat (Provider.cls p)))),
       ("set", .arr ((List.range nStores).map fun st => .arr ((List.range nOps).map fun o =>
           match authSet mt s st o with | none => .null | some p => jnat p.cls)))]
   | _ => .error s!"unknown op {op}"
